@@ -1,15 +1,23 @@
 """C27 Database transactions retry only transient errors, atomically.
 
   R1  decision shape of retry_transient_mysql_errors: an exception is re-raised iff the classifier returns a falsy value, otherwise the
-      loop sleeps and retries; the classifier accepts exactly InternalError{1205} and OperationalError{1040, 1213, 2003, 2013} (tables
-      read from the module constants and compared with the statement's list) and returns truthy log levels for them, None otherwise
+      loop comes round again; the classifier is EVALUATED over the finite domain {OperationalError, InternalError, other MySQL error,
+      non-MySQL error} x {every error code it or the statement mentions, one other code}: it answers truthy exactly for
+      InternalError{1205} and OperationalError{1040, 1213, 2003, 2013} (isinstance through the import table, code sets through module
+      constants, levels by name however imported; walrus / local / `is None` / guard-clause spellings of the wrapper's test and
+      `x += 1` vs `x = x + 1` are the same thing)
   R2  the retry encloses the whole transaction: in transaction() and in every retried Database method the retry wrapper is outside
       `async with db.start()`; nothing that receives an already open Transaction is retried; async generators are not retried
   R3  Transaction exit: rollback when an exception is propagating, commit otherwise, connection released in `finally`, shielded from
       cancellation; the context manager forwards the exception type
+      (R2/R3/R6 resolve the wrapper functions by what the outer function returns, parameters by position, with-targets and cursor /
+      transaction variables by binding, commit / rollback by an abstract walk over `exception propagating` x free tests; same-class
+      helpers of _aexit_1 are inlined)
   R4  cross-language atomicity: a stored procedure that issues START TRANSACTION (implicit commit of the caller's transaction) is never
       CALLed on an open Transaction after a write; procedures CALLed from inside other procedures contain no transaction statements;
-      every path through a procedure that starts a transaction ends it exactly once (COMMIT or ROLLBACK)
+      every path through a procedure that starts a transaction ends it exactly once (COMMIT or ROLLBACK) - abstract execution over the
+      number of open transactions that follows IF / ELSEIF / ELSE, labelled blocks with LEAVE (guard clauses), RETURN, SIGNAL; a
+      failing end state counts only when it is reached on a path that does not decide one condition both ways
   R5  inside Transaction a failing statement aborts the transaction: every `try` that encloses a statement execution re-raises on every
       handler path (no `return`/`break`/`continue` in its `finally`, no contextlib.suppress around it); no statement-executing function
       is retried (decorator) or sleeps-and-retries (a statement re-issued inside an open transaction runs after InnoDB may already have
@@ -41,6 +49,7 @@ from typing import Any, Dict, FrozenSet, List, Optional, Set, Tuple
 
 from engines import absdom, c27facts as cf, pyfacts as pf
 from engines import sqlfront as sf
+from engines.inline import inline_methods
 from engines.common import AnalysisError, AnchorRemoved, Ctx
 from engines.sqlast import N, text
 
@@ -237,7 +246,7 @@ def r1(ctx: Ctx, m: pf.Module) -> None:
     ctx.ok('R1', f'{DB}::exception_log_level_if_retryable::truthy levels', 'every accepted (class, code) is answered with a truthy level (evaluated per code, included in the two code-set instances)')
     # the wrapper's decision table
     outer = m.func('retry_transient_mysql_errors')
-    w = m.func('retry_transient_mysql_errors.wrapper')
+    _wq, w = _returned_inner(m, 'retry_transient_mysql_errors')
     loops = [s for s in w.body if isinstance(s, ast.While)]
     ctx.need(len(loops) == 1 and isinstance(loops[0].test, ast.Constant) and loops[0].test.value is True, 'retry wrapper: while True not found')
     trs = [s for s in loops[0].body if isinstance(s, ast.Try)]
@@ -286,6 +295,18 @@ def r1(ctx: Ctx, m: pf.Module) -> None:
         ctx.check(full, 'R1', cons, f'the retried call is `{pf.nsrc(c)}`, not {fname}(*{va}, **{kw}): a retry does not repeat the operation the caller asked for', m.path, tr.lineno)
 
 
+def _returned_inner(m: pf.Module, qual: str) -> Tuple[str, pf.FuncDef]:
+    """The nested function that `qual` returns (`def outer(..): def inner(..): ..; return inner`), whatever it is called."""
+    outer = m.func(qual)
+    inner = {f.name: f for f in outer.body if isinstance(f, (ast.FunctionDef, ast.AsyncFunctionDef))}
+    rets = [s_.value for s_ in outer.body if isinstance(s_, ast.Return) and s_.value is not None]
+    names = {r.id for r in rets if isinstance(r, ast.Name)}
+    hit = [n for n in names if n in inner]
+    if len(hit) != 1 or len(rets) != 1:
+        raise AnalysisError(f'anchor vanished: {m.rel}::{qual} does not return one nested function')
+    return f'{qual}.{hit[0]}', inner[hit[0]]
+
+
 def _retried(fn: pf.FuncDef) -> bool:
     return any((pf.dotted(d) or '').split('.')[-1] == 'retry_transient_mysql_errors' for d in fn.decorator_list)
 
@@ -295,7 +316,7 @@ def _start_withs(fn: pf.FuncDef, receivers: Set[str]) -> List[ast.AsyncWith]:
     for w in ast.walk(fn):
         if isinstance(w, (ast.AsyncWith, ast.With)):
             for i in w.items:
-                c = i.context_expr
+                c = pf.resolve_expr(fn, i.context_expr)
                 if isinstance(c, ast.Call) and isinstance(c.func, ast.Attribute) and c.func.attr == 'start' and isinstance(c.func.value, ast.Name) and c.func.value.id in receivers:
                     out.append(w)
     return out
@@ -324,7 +345,7 @@ def _db_opening_methods(m: pf.Module) -> Tuple[Dict[str, pf.FuncDef], Set[str]]:
 def r2(ctx: Ctx, m: pf.Module) -> None:
     tr_outer = m.func('transaction')
     tf = m.func('transaction.transformer')
-    tw = m.func('transaction.transformer.wrapper')
+    twq, tw = _returned_inner(m, 'transaction.transformer')
     cons = f'{DB}::transaction'
     dbname = tr_outer.args.args[0].arg if tr_outer.args.args else None
     fun = tf.args.args[0].arg if tf.args.args else None
@@ -332,10 +353,12 @@ def r2(ctx: Ctx, m: pf.Module) -> None:
     body = _docless(tw.body)
     withs = _start_withs(tw, {dbname} if dbname else set())
     canonical = False
-    if retried and len(body) == 1 and isinstance(body[0], ast.AsyncWith) and withs == [body[0]] and isinstance(body[0].items[0].optional_vars, ast.Name):
-        tx = body[0].items[0].optional_vars.id
-        calls = [c for c in ast.walk(body[0]) if isinstance(c, ast.Call) and isinstance(c.func, ast.Name) and c.func.id == fun]
-        inner = [s for s in ast.walk(body[0]) if isinstance(s, (ast.Try, ast.While, ast.For, ast.AsyncFor))]
+    pure = [s_ for s_ in body if isinstance(s_, (ast.Assign, ast.AnnAssign)) and not any(isinstance(x, (ast.Await, ast.Yield, ast.YieldFrom)) for x in ast.walk(s_))]
+    rest = [s_ for s_ in body if s_ not in pure]
+    if retried and len(rest) == 1 and isinstance(rest[0], ast.AsyncWith) and withs == [rest[0]] and isinstance(rest[0].items[0].optional_vars, ast.Name):
+        tx = rest[0].items[0].optional_vars.id
+        calls = [c for c in ast.walk(rest[0]) if isinstance(c, ast.Call) and isinstance(c.func, ast.Name) and c.func.id == fun]
+        inner = [s for s in ast.walk(rest[0]) if isinstance(s, (ast.Try, ast.While, ast.For, ast.AsyncFor))]
         canonical = len(calls) == 1 and bool(calls[0].args) and isinstance(calls[0].args[0], ast.Name) and calls[0].args[0].id == tx and not inner
     if canonical:
         ctx.ok('R2', cons + '::retry outside start', 'retry decorator around `async with <db>.start() as tx: .. fun(tx, ..)`')
@@ -404,7 +427,7 @@ def r2(ctx: Ctx, m: pf.Module) -> None:
                 params = [a.arg for a in fn.args.args]
                 anns = [pf.nsrc(a.annotation) for a in fn.args.args if a.annotation is not None]
                 bad = 'tx' in params or any('Transaction' in x for x in anns)
-                if q.endswith('transformer.wrapper'):
+                if rel == DB and q == twq:
                     continue
                 ctx.check(not bad, 'R2', f'{rel}::{q}::retried function takes no open transaction', 'a function receiving an open Transaction is retried: the retry re-executes on a connection whose '
                           'transaction is in an unknown state', mm.path, fn.lineno)
@@ -434,6 +457,11 @@ def _str_alternatives(m: pf.Module, fn: pf.FuncDef, e: ast.expr, depth: int = 0)
 
 
 def r3(ctx: Ctx, m: pf.Module) -> None:
+    m0 = m
+    try:
+        m, _il = inline_methods(m0, 'Transaction', '_aexit_1')
+    except Exception:   # the inliner is best effort: fall back to the function as written
+        m = m0
     fn = m.func('Transaction._aexit_1')
     cons = f'{DB}::Transaction._aexit_1'
     trs = [s for s in fn.body if isinstance(s, ast.Try)]
@@ -515,6 +543,7 @@ def r3(ctx: Ctx, m: pf.Module) -> None:
                 swallow = f'`except {pf.nsrc(h.type) if h.type is not None else ""}` at line {h.lineno} ends in `{o.kind}`'
     ctx.check(swallow is None, 'R3', cons + '::errors propagate', f'a failing commit/rollback is swallowed (the caller would believe the transaction committed): {swallow}', m.path, fn.lineno)
     # shielded
+    m = m0
     ae = m.func('Transaction._aexit')
     inner_calls = [c for c in ast.walk(ae) if isinstance(c, ast.Call) and isinstance(c.func, ast.Attribute) and c.func.attr == '_aexit_1']
     par = m.parents()
@@ -1415,7 +1444,7 @@ def r7(ctx: Ctx, m: pf.Module) -> None:
             return isinstance(sp, ast.Call) and c in sp.args and (pf.dotted(sp.func) or '').split('.')[-1] in BACKGROUND
         if uses and all(spawned(n) for n in uses):
             background.add(q)
-    scope = [(q, fn) for q, fn in fns if q != 'retry_transient_mysql_errors.wrapper' and q.split('.')[0] not in background]
+    scope = [(q, fn) for q, fn in fns if q != _returned_inner(m, 'retry_transient_mysql_errors')[0] and q.split('.')[0] not in background]
     n = 0
     for q, fn, tr, h, label in _handler_sites(m, scope):
         n += 1
